@@ -61,6 +61,22 @@
 /*
     TIME FUNCTIONS
  */
+/* psDiffMsecs returns int32: a difference that does not fit (24.8 days and
+   more) is reported as the largest value, not as a wrapped-around one that
+   would make an old timestamp look recent again. */
+static int32 psSaturateMsecs(int64_t msecs)
+{
+    if (msecs > 0x7FFFFFFFLL)
+    {
+        return 0x7FFFFFFF;
+    }
+    if (msecs < -0x7FFFFFFFLL)
+    {
+        return -0x7FFFFFFF;
+    }
+    return (int32) msecs;
+}
+
 # ifndef USE_HIGHRES_TIME
 /******************************************************************************/
 /*
@@ -118,9 +134,10 @@ int32 psDiffMsecs(psTime_t then, psTime_t now, void *userPtr)
         /* borrow 1 second worth of usec */
         now.psTimeInternal.tv_usec += 1000000;
     }
-    return (int32) ((now.psTimeInternal.tv_sec - then.psTimeInternal.tv_sec)
-            * 1000) +
-           ((now.psTimeInternal.tv_usec - then.psTimeInternal.tv_usec) /
+    return psSaturateMsecs(
+            (int64_t) (now.psTimeInternal.tv_sec - then.psTimeInternal.tv_sec)
+            * 1000 +
+            (now.psTimeInternal.tv_usec - then.psTimeInternal.tv_usec) /
             1000);
 }
 
@@ -175,8 +192,9 @@ int32 psGetTime(psTime_t *t, void *userPtr)
 
 int32 psDiffMsecs(psTime_t then, psTime_t now, void *userPtr)
 {
-    return (int32) (((now.psTimeInternal - then.psTimeInternal) *
-            hiresFreq.numer) / (hiresFreq.denom * 1000000));
+    return psSaturateMsecs((int64_t) (((now.psTimeInternal -
+            then.psTimeInternal) * hiresFreq.numer) /
+            (hiresFreq.denom * 1000000)));
 }
 
 int64_t psDiffUsecs(psTime_t then, psTime_t now)
@@ -223,10 +241,11 @@ int32 psDiffMsecs(psTime_t then, psTime_t now, void *userPtr)
         /* borrow 1 second worth of nsec */
         now.psTimeInternal.tv_nsec += 1000000000L;
         }
-        return (int32) ((now.psTimeInternal.tv_sec -
+        return psSaturateMsecs(
+                (int64_t) (now.psTimeInternal.tv_sec -
                 then.psTimeInternal.tv_sec) *
-                1000) +
-               ((now.psTimeInternal.tv_nsec -
+                1000 +
+                (now.psTimeInternal.tv_nsec -
                  then.psTimeInternal.tv_nsec) /
                 1000000);
     }
